@@ -7,7 +7,7 @@
       of a mask is the first element of the parent sequence. *)
 From Coq Require Import List Bool Arith ZArith NArith.
 Import ListNotations.
-Open Scope Z_scope.
+Local Open Scope Z_scope.
 
 (* one iteration on a position where the parent has a bit; [f] = child has it *)
 Definition step (st : bool * Z) (f : bool) : bool * Z :=
